@@ -156,6 +156,20 @@ CHECKS = {
              "Future/Task.cancel/call_at/Semaphore and the transport; the oracle is model-free (responses are labelled by request).",
         technique="bounded symbolic execution (symx, z3) of the real coroutines, hand-driven without an event loop; every symbolic variable is a schedule selector, so this is bounded exhaustive schedule exploration of the real code; counterexample schedules replayed on the unmodified library",
         design="DESIGN.md section 0.3a and 6 (C08)"),
+    "C12": dict(
+        text="PARTIAL, hand-driven: the real IpPairing.subscribe / unsubscribe / _update_subscriptions / connection_made / event_received, "
+             "HomeKitConnection.event_received and AbstractPairing's subscription and listener code run against a recording accessory "
+             "(connection.put_json) for every history of at most 4 (thorough 5) events over {subscribe S, unsubscribe S (4 id lists "
+             "over 3 ids on 2 accessory ids), reconnect, reconnect cut off at its 1st/2nd request, disconnect, event with a good / "
+             "two-characteristic / empty / non-JSON / non-UTF-8 body, listener added (raising or not) / removed}: after every clean "
+             "(re)connection the accessory has again been asked for every subscribed id, one request per accessory id; listeners are "
+             "told the connection is back; each event reaches each registered listener exactly once keyed by (aid, iid); unparsable "
+             "bodies are not delivered; a raising listener neither stops the others nor propagates; nothing raises. NOT decided: "
+             "events interleaved with responses and split across reads (C07/C08), per-status subscription replies (C13), BLE/CoAP.",
+        note="All symbolic variables are discrete history selectors (bounded exhaustive exploration of histories of the real code). "
+             "Trusted: the recording accessory behind put_json, the connected flag behind _ensure_connected.",
+        technique="bounded symbolic execution (symx, z3) of the real coroutines, each running to completion under one send(None); every symbolic variable is a history selector, so this is bounded exhaustive history exploration of the real code; counterexample histories replayed on the unmodified library",
+        design="DESIGN.md section 0.3a (C12)"),
     "C10": dict(
         technique=TECH + "; parts (b)-(h) are hand-driven coroutines whose symbolic variables are discrete selectors (bounded exhaustive exploration), part (a) is an SMT proof over reals lifted from the source AST",
         text="PARTIAL: (a) the back-off update expression is lifted from HomeKitConnection._reconnect's AST into z3 reals and the one-step "
@@ -192,7 +206,6 @@ CHECKS = {
 
 NOT_APPLICABLE = {
     "C09": "request bytes are produced by f-strings, str.join, str.encode and orjson.dumps - C-level operations that force concrete str, so nothing symbolic survives to the first byte; what remains is example testing",
-    "C12": "all quantified quantities are discrete schedule/history choices running through orjson and C-level set hashing on a running loop; no byte- or integer-level content for the solver to generalise over",
     "C20": "data path is orjson.dumps -> open/write -> orjson/commentjson.loads; the only symbolic candidate is a crash index that must be realised at the JSON parser, i.e. crash-point enumeration",
 }
 PENDING = "harness not built yet in this round (see DESIGN.md section 5 for the planned solver-based check)"
